@@ -44,11 +44,24 @@ struct Built {
 }
 
 const REAL_FAILING: &str = "array_pop nohandle";
-const SCRIPT_CMD_MESSAGE: &str = "Invalid input, non array handle or array not found.";
+/// the message `array_join nohandle ,` reports when run alone (differential: the wording is not
+/// part of the property, its propagation to the caller's line is)
+fn script_cmd_message() -> String {
+    thread_local! {
+        static MSG: String = {
+            let mut s = Session::new();
+            match s.call("array_join", &["nohandle", ","]) {
+                Out::Err(m) => m,
+                o => format!("<{:?}>", o),
+            }
+        };
+    }
+    MSG.with(|m| m.clone())
+}
 
 fn site_line(i: usize, s: &Site, real_msg: &str) -> (String, String) {
     match s.ctx {
-        Ctx::ScriptCommand => (format!("o{} = array_join nohandle ,", i), SCRIPT_CMD_MESSAGE.to_string()),
+        Ctx::ScriptCommand => (format!("o{} = array_join nohandle ,", i), script_cmd_message()),
         _ => match s.kind {
             0 => (format!("o{} = trigger_error m{}", i, i), format!("m{}", i)),
             1 => (format!("o{} = assert_error \"a {}\"", i, i), format!("a {}", i)),
@@ -209,6 +222,20 @@ fn run_case(w: &mut Worker, sites: &[Site], exit_mode: u8, mode: RunMode, real_m
     }
 }
 
+/// two source tags name the same file (the spelling of the path is not part of the property)
+fn same_source(a: &str, b: &str) -> bool {
+    if a == b {
+        return true;
+    }
+    if a.is_empty() || b.is_empty() {
+        return false;
+    }
+    match (std::fs::canonicalize(a), std::fs::canonicalize(b)) {
+        (Ok(x), Ok(y)) => x == y,
+        _ => false,
+    }
+}
+
 fn execute(b: &Built, exit_mode: u8, mode: RunMode, scratch: &std::path::Path) -> Result<u64, (String, String)> {
     let dir = scratch.join("c10");
     let ctx = sdk_context();
@@ -283,7 +310,7 @@ fn execute(b: &Built, exit_mode: u8, mode: RunMode, scratch: &std::path::Path) -
                     return Err(("last-error-line".into(), format!("site {}: get_last_error_line {:?}, expected {}", i, get("l"), line)));
                 }
                 let src = source_of(*fi);
-                if get("s").unwrap_or_default() != src {
+                if !same_source(&get("s").unwrap_or_default(), &src) {
                     return Err(("last-error-source".into(), format!("site {}: get_last_error_source {:?}, expected {:?}", i, get("s"), src)));
                 }
             }
@@ -306,7 +333,7 @@ fn execute(b: &Built, exit_mode: u8, mode: RunMode, scratch: &std::path::Path) -
                         return Err(("fatal-line".into(), format!("failure line {:?}, expected {}", meta.line, line)));
                     }
                     let src = source_of(*fi);
-                    if meta.source.clone().unwrap_or_default() != src {
+                    if !same_source(&meta.source.clone().unwrap_or_default(), &src) {
                         return Err(("fatal-source".into(), format!("failure source {:?}, expected {:?}", meta.source, src)));
                     }
                     Ok(hash64(&("fatal", k, exit_mode)))
